@@ -917,6 +917,27 @@ pub fn gen_c09(seed: u64, _thorough: bool, out: &mut Out) {
     let v = if obs == "panic" { Err("Client::verify panicked on malformed input".to_string()) } else { Ok(()) };
     out.case(format!("cl.verify {} {} {} {} {}", hex(&pk), hex(&i), hex(&o), p.map_or("-".to_string(), |x| hex(&x)), md), obs, v);
   }
+  // Client::unblind on the server's answer: decodable answers are fine; an undecodable one has no failure result
+  // to go to (known finding C09/unblind-undecodable, witness always generated)
+  let rs = Scalar::from(7u64);
+  let mut ub_cases: Vec<Vec<u8>> = vec![outb.clone(), vec![0u8; 32]];
+  ub_cases.extend(bad.iter().cloned());
+  for p in ub_cases {
+    let pt = Point::from(&p[..]);
+    let obs = match guarded(|| Client::unblind(&pt, &CurveScalar::from(rs))) {
+      Some(u) => format!("ok {}", hex(u.as_bytes())),
+      None => "panic".to_string(),
+    };
+    let decodable = curve25519_dalek::ristretto::CompressedRistretto::from_slice(&p).ok().and_then(|c| c.decompress()).is_some();
+    let v = if obs != "panic" {
+      Ok(())
+    } else if !decodable {
+      Err("unblind-undecodable: Client::unblind panicked on an undecodable evaluation output".to_string())
+    } else {
+      Err("Client::unblind panicked on a decodable evaluation output".to_string())
+    };
+    out.case(format!("cl.unblind {} {}", hex(&p), hex(rs.as_bytes())), obs, v);
+  }
   let (c, o, v) = w.finish(head);
   out.case(c, o, v);
 }
